@@ -3,8 +3,9 @@ import UtilModel.Gen.Facts
 /-!
 # Model of package `uu`
 
-The bit expressions (`RandomID`, `Version`, the five formatter fields, the parser's digit
-placement) are the generated `Gen.uu_*` definitions; the control flow is transliterated by hand.
+The bit expressions (`RandomID`, the five formatter fields, the parser's digit placement) are the
+generated `Gen.uu_*` definitions; the control flow and the accessors `Version`/`Variant` are transliterated by
+hand (the accessors are tied to their translations `Gen.uu_Version`/`Gen.uu_Variant` in `Lemmas/CodeTiesUU.lean`).
 -/
 namespace U.UU
 open U
@@ -16,16 +17,14 @@ structure ID where
 
 def ID.zero : ID := ⟨0#64, 0#64⟩
 
-/-- `ID.Version()` -/
-def ID.version (i : ID) : Nat := (Gen.uu_version i.hi i.lo).toNat
+/-- `ID.Version()`: bits 12–15 of `Higher` (tied to the source by `C05.accessors_code_tie`) -/
+def ID.version (i : ID) : Nat := ((i.hi >>> 12) &&& 15#64).toNat
 
-/-- `ID.Variant()`: the chain of mask tests from the source -/
-def variantOf (tests : List (BitVec 64 × Nat)) (final : Nat) (lo : BitVec 64) : Nat :=
-  match tests with
-  | [] => final
-  | (m, r) :: ts => if lo &&& m = 0#64 then r else variantOf ts final lo
-
-def ID.variant (i : ID) : Nat := variantOf Gen.uu_variantTests Gen.uu_variantFinal i.lo
+/-- `ID.Variant()`: the number of leading one bits of `Lower`, at most 3 -/
+def ID.variant (i : ID) : Nat :=
+  if i.lo &&& 9223372036854775808#64 = 0#64 then 0
+  else if i.lo &&& 4611686018427387904#64 = 0#64 then 1
+  else if i.lo &&& 2305843009213693952#64 = 0#64 then 2 else 3
 
 /-- `DefaultFormatter(buf, id, f)` with the five `%0Nx` fields (widths 8,4,4,4,12) -/
 def format (buf : Bytes) (i : ID) (urn : Bool) : Bytes :=
